@@ -39,10 +39,10 @@ CHANNELS = ['set_type', 'set_type_transform', 'validate', 'results', 'dumper']
 def model(rep, t):
     wd = tlc.workdir('c14')
     cfg = tlc.write_cfg(os.path.join(wd, 'pv.cfg'), constants={'MaxRows': 3, 'NFields': 2,
-                        'Policies': '{"raise", "drop", "ignore", "clear", "custom4", "custom5"}'},
+                        'Policies': '{"raise", "drop", "ignore", "clear", "custom4", "custom5", "custom5r"}'},
                         invariants=['LoopMeetsDefinition', 'ValidRowsUntouched'], constraints=['Export'])
     res = tlc.run_tlc('ProcValidate', cfg, workers=1, allow_violation=False, timeout=3000)
-    rep.add_tlc(res, 'ProcValidate <=3 rows x 2 fields x 4 cell classes x 6 policies: loop = definition, ValidRowsUntouched')
+    rep.add_tlc(res, 'ProcValidate <=3 rows x 2 fields x 4 cell classes x 7 policies: loop = definition, ValidRowsUntouched')
     return res.cases
 
 
@@ -65,6 +65,7 @@ def replay_case(item):
     from ..common import tuple_source
     setup_repo()
     c, ch, t1, t2 = item['case'], item['channel'], item['t1'], item['t2']
+    pattern = item.get('pattern', 'f[12]')
     if ch in ('set_type', 'set_type_transform'):
         t2 = t1
     tn = [t1, t2]
@@ -84,8 +85,14 @@ def replay_case(item):
             row['f1'] = None
             return True
         return False
+    def custom5r(res_name, row, i, e, field):
+        calls.append([i, {'f1': 1, 'f2': 2}.get(getattr(field, 'name', None), 0)])
+        if field is not None and field.name == 'f2':
+            row['f2'] = None
+            return True
+        return False
     handler = {'raise': sv.raise_exception, 'drop': sv.drop, 'ignore': sv.ignore, 'clear': sv.clear,
-               'custom4': custom4, 'custom5': custom5}[pol]
+               'custom4': custom4, 'custom5': custom5, 'custom5r': custom5r}[pol]
     root = tempfile.mkdtemp(prefix='c14-', dir=tlc.WORK_ROOT)
     try:
         anyf = [('rid', 'integer'), ('f1', 'any'), ('f2', 'any'), ('f1x', 'string')]
@@ -97,7 +104,7 @@ def replay_case(item):
             try:
                 if ch == 'set_type':
                     opts = dict(TYPES[t1][0])
-                    ds = Flow(tuple_source([('t', anyf, rows)]), DF.set_type('f[12]', on_error=handler, **opts)).datastream()
+                    ds = Flow(tuple_source([('t', anyf, rows)]), DF.set_type(pattern, on_error=handler, **opts)).datastream()
                     out = [[dict(r) for r in res] for res in ds.res_iter][0]
                 elif ch == 'set_type_transform':
                     # lexical values arrive wrapped in '<...>' and only the transform makes them castable: it must run BEFORE the cast,
@@ -108,7 +115,7 @@ def replay_case(item):
 
                     def unwrap(v):
                         return v[1:-1] if isinstance(v, str) and v.startswith('<') and v.endswith('>') else v
-                    ds = Flow(tuple_source([('t', anyf, wrapped)]), DF.set_type('f[12]', on_error=handler, transform=unwrap, **opts)).datastream()
+                    ds = Flow(tuple_source([('t', anyf, wrapped)]), DF.set_type(pattern, on_error=handler, transform=unwrap, **opts)).datastream()
                     out = [[dict(r) for r in res] for res in ds.res_iter][0]
                 elif ch == 'validate':
                     ds = Flow(tuple_source([('t', typed, rows)]), DF.validate(on_error=handler)).datastream()
@@ -149,8 +156,8 @@ def replay_case(item):
         got = [dict(rid=r.get('rid'), f1=r.get('f1'), f2=r.get('f2'), f1x=r.get('f1x')) for r in out]
         if canon(got) != canon(want) or [type(x.get('f1')).__name__ for x in got] != [type(x.get('f1')).__name__ for x in want]:
             return dict(ok=False, why='emitted rows differ', got=got, want=want)
-        if pol in ('custom4', 'custom5'):
-            wc = [[a, (b if pol == 'custom5' else 0)] for a, b in c['calls']]
+        if pol in ('custom4', 'custom5', 'custom5r'):
+            wc = [[a, (b if pol != 'custom4' else 0)] for a, b in c['calls']]
             if calls != wc:
                 return dict(ok=False, why='handler call log differs', got=calls, want=wc)
         return dict(ok=True)
@@ -179,7 +186,7 @@ def run():
                 ch = r.choice(CHANNELS[:4])     # a dumper cannot serialise the invalid values that ignore / keep-handlers let through
             # the dumpers re-declare the format of datetime fields (their own dialect), so its default lexical form is not valid there
             tn2 = [x for x in tnames if x != 'datetime'] if ch == 'dumper' else tnames
-            items.append(dict(case=c, channel=ch, t1=r.choice(tn2), t2=r.choice(tn2)))
+            items.append(dict(case=c, channel=ch, t1=r.choice(tn2), t2=r.choice(tn2), pattern=r.choice(['f[12]', 'f1|f2', 'f2|f1', 'f(1|2)'])))
     res = pmap(replay_case, items, chunksize=32)
     errs = harness_errors(res)
     if errs:
